@@ -446,33 +446,43 @@ def run_input(unit):
     from . import c07
     P = c07.P
     cfg = {'harness': 'from-input-lines'}
+    again = bool(unit.get('again'))
+    if again:
+        cfg['history'] = 'the same HIP_RA_X object has read and assessed another input before (its own symbolic values); the second assessment is checked'
     log = harness.UnitLog(cfg)
     lines = {'Reservoir Porosity': (0, 100), 'Reservoir Area': (0.001, 10000), 'Reservoir Thickness': (0.001, 10000), 'Reservoir Temperature': (100, 400),
              'Recoverable Fluid Factor': (0, 1)}
     attr = {'Reservoir Porosity': 'reservoir_porosity', 'Reservoir Area': 'reservoir_area', 'Reservoir Thickness': 'reservoir_thickness',
             'Reservoir Temperature': 'reservoir_temperature', 'Recoverable Fluid Factor': 'recoverable_fluid_factor'}
 
-    def drive(vals, symbolic):
+    FIRST_LINES = ('Reservoir Area', 'Reservoir Thickness')      # what the earlier input stated (read, not assessed: the read is what leaves state behind)
+
+    def drive(vals, symbolic, first=None):
         o = fresh()
-        ents = {}
-        for n in lines:
-            if symbolic:
-                tok = c07.NumStr('SYMV')
-                tok.proxy = vals[n]
-            else:
-                tok = repr(float(vals[n]))
-            ents[n] = P.ParameterEntry(Name=n, sValue=tok, raw_entry=f'{n}, {tok}')
-        ents['Rejection Temperature'] = P.ParameterEntry(Name='Rejection Temperature', sValue='60', raw_entry='Rejection Temperature, 60')
-        o.InputParameters = ents
-        with contextlib.redirect_stdout(io.StringIO()), contextlib.redirect_stderr(io.StringIO()):
-            if symbolic:
-                with shim.shadow(*(list(c07.param_shadows()) + SHADOWS + [(H, 'read_input_file', lambda *a, **k: None)])):
-                    o.read_parameters()
-                    o.Calculate()
-            else:
-                with shim.shadow((H, 'read_input_file', lambda *a, **k: None)):
-                    o.read_parameters()
-                    o.Calculate()
+        for vs in ([first] if first is not None else []) + [vals]:
+            ents = {}
+            for n in lines:
+                if vs is first and n not in FIRST_LINES:
+                    continue
+                if symbolic:
+                    tok = c07.NumStr('SYMV')
+                    tok.proxy = vs[n]
+                else:
+                    tok = repr(float(vs[n]))
+                ents[n] = P.ParameterEntry(Name=n, sValue=tok, raw_entry=f'{n}, {tok}')
+            ents['Rejection Temperature'] = P.ParameterEntry(Name='Rejection Temperature', sValue='60', raw_entry='Rejection Temperature, 60')
+            o.InputParameters = ents
+            with contextlib.redirect_stdout(io.StringIO()), contextlib.redirect_stderr(io.StringIO()):
+                if symbolic:
+                    with shim.shadow(*(list(c07.param_shadows()) + SHADOWS + [(H, 'read_input_file', lambda *a, **k: None)])):
+                        o.read_parameters()
+                        if vs is not first:
+                            o.Calculate()
+                else:
+                    with shim.shadow((H, 'read_input_file', lambda *a, **k: None)):
+                        o.read_parameters()
+                        if vs is not first:
+                            o.Calculate()
         return o
 
     def obligations(vals, o):
@@ -487,7 +497,7 @@ def run_input(unit):
     def concrete(inp, only=None):
         vals = {n: float(inp[n]) for n in lines}
         try:
-            o = drive(vals, False)
+            o = drive(vals, False, first=({n: float(inp['first.' + n]) for n in FIRST_LINES} if again else None))
         except Exception as e:
             return False, {'no result': repr(e)[:160]}
         bad = [n for n, ok in obligations(vals, o) if not ok and (only is None or n == only)]
@@ -495,12 +505,15 @@ def run_input(unit):
                            'rock volume': float(o.volume_rock.value), 'fluid volume': float(o.volume_recoverable_fluid.value)}
 
     def fn():
+        first = {n: sym('first.' + n, *lines[n]) for n in FIRST_LINES} if again else None
         vals = {n: sym(n, *lines[n]) for n in lines}
-        o = drive(vals, True)
+        o = drive(vals, True, first=first)
         return obligations(vals, o)
     zv = {n: z3.Real(n) for n in lines}
+    if again:
+        zv.update({'first.' + n: z3.Real('first.' + n) for n in FIRST_LINES})
     k = 0
-    for pr in core.explore(fn, max_paths=3000, catch=(RuntimeError, ValueError)):
+    for pr in core.explore(fn, max_paths=20000, catch=(RuntimeError, ValueError)):
         log.path(pr)
         k += 1
         if pr.aborted or pr.error is not None:
@@ -512,7 +525,7 @@ def run_input(unit):
 
 
 def units(tier, seed):
-    us = [{'harness': 'input'}]
+    us = [{'harness': 'input'}, {'harness': 'input', 'again': True}]
     # the client in front of the assessment: a rewritten input (doubled area ...) must be assessed again, not answered from an earlier result
     us.append({'harness': 'client-real-files', 'client': 'hip', 'H': 2, 'caching': True})
     us.append({'harness': 'client-params'})      # a porosity / factor of exactly 0 passed through the dict API must reach the assessment
